@@ -26,7 +26,7 @@ META = {
 META['explanation'] += ' ' + 'R6: explicit rejections against the reviewed table. R7: TXT character-strings (tabulated). R8: RRSIG timestamps and DNSKEY flags through the shared primitives (tabulated). R9: fixed length integers exact for every bit length, refusal instead of truncation. R5 also tabulates the RSA modulus width for moduli that are exact powers of two, with the key size modelled as the dependency computes it. R10: a parser whose consumed length is not reported tests that nothing is left unread. Spec items name the attribute they carry.'
 META['explanation'] += ' ' + 'R11: DSA key fields (T and one common width of 64 + 8T octets) as a parse-compose-parse pipeline over primes shorter than their field; ts items of the specification carry whether all-ones means no limit.'
 
-META['explanation'] += ' ' + 'R12: DNSKEY records evaluated per algorithm (RSA, DSA incl. a prime just above a power of two, ECDSA / GOST with leading zero octets, EdDSA). R13: the length demanded up front against the shortest RDATA of the specification (min_rdata in sa/specs/dns.json). R14: compose_bytes / compose_string around the largest length the prefix holds (shared with C11.R13).'
+META['explanation'] += ' ' + 'R12: DNSKEY records evaluated per algorithm (RSA, DSA incl. a prime just above a power of two, ECDSA / GOST with leading zero octets, EdDSA). R13: the length demanded up front against the shortest RDATA of the specification (min_rdata in sa/specs/dns.json). R14: compose_bytes / compose_string around the largest length the prefix holds (shared with C11.R13). R15: the string primitives convert with the codec they are given (shared with C11.R14).'
 MODULES = {'cryptoparser.dnsrec.record'}
 HERE = os.path.dirname(os.path.dirname(os.path.abspath(__file__)))
 
@@ -53,6 +53,9 @@ def check(ctx, report):
     minimum = {k: (v['min_rdata'], v.get('min_rdata_ref', '')) for k, v in load_spec('dns.json')['structures'].items() if 'min_rdata' in v}
     header_constants(ctx, report, RULE='C08.R13', scope=('cryptoparser.dnsrec.',), floor=4, spec_minimum=minimum)
     # a TXT chunk of exactly 255 octets, a label of 63: the longest string the one octet prefix holds is composed (shared with C11.R13)
+    # labels are decoded with the codec the name parser names (idna): no literal codec inside the primitive (shared with C11.R14)
+    from .c11 import codec_as_named
+    codec_as_named(ctx, report, RULE='C08.R15', title='domain name labels are decoded with the codec the caller names (idna), no literal codec inside the string primitives')
     from .c11 import length_prefixed_bytes
     length_prefixed_bytes(ctx, report, RULE='C08.R14',
                           title='character-strings and labels: the longest string the length octet holds (255) is composed, 256 is refused (compose_bytes / compose_string evaluated)')
